@@ -713,5 +713,6 @@ func aggqExtra(t *tr) string {
 		aggqEmit(&b, t2, "cliReadConfigAndRunEngine", "", "ReadConfigAndRunEngine", "cli/cli.go")
 		t.errs = append(t.errs, t2.errs...)
 	}
+	aggqRound6Facts(&b, t)
 	return b.String()
 }
